@@ -22,7 +22,7 @@ func boundaryGrid(rng *rand.Rand, q, n *big.Int) []*big.Int {
 }
 
 func runC06(r *Run, rng *rand.Rand, thorough bool) {
-	r.Rule = "verdict agreement (accept / reject / error / panic / hang>10s) between every exported verifier and decoder and its Lean model on boundary grids: every field of every proof system set to {0,1,2,q-1,q,q+1,2q,N-1,N,N+1,N^2,2^255,2^256,2^2048,2^4100,q^3}, even/odd flips, crafted relations; non-trivial = distinct op line; direct assertion: the implementation returns (no panic, no hang); protocol level (child processes, every call under a watchdog): one field of one message replaced by a boundary value in whole runs of all six protocols (first/second/middle/last element of list fields; ECDSA keygen and resharing also with a single verifier worker), and junk handed to UpdateFromBytes from a chosen event on (random bytes, bit-flipped / truncated / extended genuine messages, other / out-of-range / unknown sender, flipped broadcast flag, messages of another protocol, empty input)"
+	r.Rule = "verdict agreement (accept / reject / error / panic / hang>10s) between every exported verifier and decoder and its Lean model on boundary grids: every field of every proof system set to {0,1,2,q-1,q,q+1,2q,N-1,N,N+1,N^2,2^255,2^256,2^2048,2^4100,q^3}, even/odd flips, crafted relations; non-trivial = distinct op line; direct assertion: the implementation returns (no panic, no hang); protocol level (child processes, every call under a watchdog): one field of one message replaced by a boundary value in whole runs of all six protocols (first/second/middle/last element of list fields; ECDSA keygen and resharing also with a single verifier worker), hash-correct de-commitments of the wrong arity for every commitment / de-commitment pair, and junk handed to UpdateFromBytes from a chosen event on (random bytes, bit-flipped / truncated / extended genuine messages, other / out-of-range / unknown sender, flipped broadcast flag, messages of another protocol, empty input)"
 	protocolLevelC06(r, rng, thorough)
 	cases := honestCases(r, rng, false)
 	seenSys := map[string]int{}
